@@ -865,6 +865,9 @@ def check_C12(ctx):
                 "the three operand forms of | and &, + and | id) and demands the same set semantics of 400 random group pairs with sizes 0..500 across the inline capacity of 30 "
                 "(nested, equal, touching, interleaved ranges); the ancestor queries of pairs of terms (common / union ancestors, with and without the terms) are validated by TLC "
                 "on recorded ontologies incl. 'fan' ontologies that realise arbitrary group pairs as ancestor sets; non-trivial = every case")
+    # design level: the merge loop, the intersection loop (shorter input iterated, binary search in the longer one) and insert as step machines;
+    # loop invariants, termination and refinement of the set operations for every pair of sorted inputs over 1..5 (1..7 thorough)
+    tlc(ctx, "mc/MC_GroupAlgo.cfg" if ctx.quick else "mc/MC_GroupAlgo7.cfg", "mc/MC_GroupAlgo.tla", workers=4, coverage=not ctx.quick)
     out = tlc(ctx, "mc/MC_Group.cfg", "mc/MC_Group.tla", workers=4)["out"]
     s = hv(ctx, "replay-group", prop="C12", **{"in": out})
     ctx.traces += s.get("cases", 0)
